@@ -500,6 +500,8 @@ def validateR (R : ResolvedInst) (inst : Inst) (operands : List Operand) : Err :
     if test options kAvx512Options then
       if test iflags ifEvex then
         if test options optZMask && !test avx avxZ then .invalidKZeroUse
+        -- (fix C01-11) zeroing-masking is not defined for a memory destination
+        else if test options optZMask && (match given with | .mem .. :: _ => true | _ => false) then .invalidKZeroUse
         else if test options (optSAE ||| optER) then
           if memOp.isSome then .invalidEROrSAE
           else if test options optER && !test avx avxER then .invalidEROrSAE
@@ -511,6 +513,8 @@ def validateR (R : ResolvedInst) (inst : Inst) (operands : List Operand) : Err :
       else .invalidInstruction
     else .ok
   if e5 ≠ .ok then e5 else
+  -- (fix C01-12) EVEX gather / scatter (VSIB, two operands) need a {k} mask register
+  if test iflags ifVsib && test iflags ifEvex && given.length == 2 && inst.extra.isNone then .invalidKMaskUse else
   -- {extra} register
   match inst.extra with
   | none => .ok
